@@ -150,8 +150,8 @@ func init() {
 			}
 			alpha := []cliEv{
 				{K: "start", I: 0}, {K: "start", I: 1}, {K: "do", I: 2}, {K: "do", I: 0},
-				{K: "resp", I: 0}, {K: "resp", I: 1}, {K: "resp", I: 2},
-				{K: "unknown"}, {K: "garbage", Arg: 0},
+				{K: "resp", I: 0}, {K: "resp", I: 1}, {K: "resp", I: 2}, {K: "resp", I: 0, Arg: 3},
+				{K: "unknown"}, {K: "garbage", Arg: 0}, {K: "readerr", Arg: 3},
 				{K: "tick", Arg: 0}, {K: "tick", Arg: 1}, {K: "tick", Arg: 2},
 				{K: "failwrite"}, {K: "failagent"}, {K: "failagent", Arg: 1}, {K: "close"},
 			}
@@ -210,6 +210,10 @@ func cliConcurrentScenarios() []cliScenario {
 		// S11 re-transmission of A || a new Start with the same id (the id is free while the re-transmission is between
 		// taking A out of the table and putting it back)
 		{Setup: []cliEv{ev("start", 0)}, Threads: [][]cliEv{nil, {tickAfter}, {ev("start", 0)}}, DupIDs: true, Epilogue: "drain+close"},
+		// S12 Close while A is in flight || Start(B): B either fails or is completed with a closed error
+		{Setup: []cliEv{ev("start", 0)}, Threads: [][]cliEv{nil, {{K: "close"}}, {ev("start", 1)}}, Epilogue: "close"},
+		// S13 re-transmission of A with a write fault || response(A) || Start(B) picking up the recycled object
+		{Setup: []cliEv{ev("start", 0), {K: "failwrite"}}, Threads: [][]cliEv{nil, {tickAfter}, {ev("resp", 0)}, {ev("start", 1)}}, Epilogue: "drain+close"},
 		// S10 Do(A) || resp(A) then Do(A) again on the recycled wait handler
 		{Threads: [][]cliEv{nil, {ev("do", 0), ev("do", 0)}, {ev("resp", 0), ev("resp", 0)}}, Epilogue: "drain+close", Opts: cliOpts{PoolFanout: true}},
 	}
